@@ -930,7 +930,10 @@ a.map_err(|e| -> (x: XlsxError) ensures x == \g<1>(e) { \g<1>(e) })?
             }
 //@@ loop 1
                     invariant_except_break
+                        // (what the guard of this arm established)
+                        opos < ev.len() ==> ev[opos].kind is Start && ev[opos].local == n_numfmts(),
                         good ==> st.ctx is NumFmts,
+                        good ==> st.root,
                     invariant
                         xml.events() == ev, xml.pos() > opos,
                         self.strings == old(self).strings && self.sheets == old(self).sheets && self.tables == old(self).tables
@@ -1000,7 +1003,10 @@ a.map_err(|e| -> (x: XlsxError) ensures x == \g<1>(e) { \g<1>(e) })?
                                 proof { axiom_bytes_keyed_insert(number_formats@, id, format); }
 //@@ loop 3
                     invariant_except_break
+                        // (what the guard of this arm established)
+                        opos < ev.len() ==> ev[opos].kind is Start && ev[opos].local == n_cellxfs(),
                         good ==> st.ctx is CellXfs,
+                        good ==> st.root,
                     invariant
                         xml.events() == ev, xml.pos() > opos,
                         self.strings == old(self).strings && self.sheets == old(self).sheets && self.tables == old(self).tables
